@@ -136,7 +136,7 @@ def run_property(prop, tier, seed, timeout, args, t_start):
     all_obl, reports, errors = [], [], []
     for q in sorted(funcs):
         try:
-            rep = verify.verify_function(repo, reg, q)
+            rep = verify.verify_function(repo, reg, q, only_variant=(int(os.environ["VERIF_VARIANT"]) if os.environ.get("VERIF_VARIANT") else None))
             reports.append(rep)
             all_obl.extend(rep.obligations)
             all_obl.extend(verify.lemma_obligations(repo, reg, q))
